@@ -69,6 +69,8 @@ BoxD(td) == LET ta == TAxis(Tpl(td))  fa == FAxis(Tpl(td)) IN
       \cup {LET p == Pick(ta, 7 * q[1] + 13 * q[2] + 3 * td.F + td.sp) IN D(td, "box", p[1], q[1], p[2], q[2], 0, 0) : q \in Pairs(fa)}
 IvD(td)  == {D(td, "iv", p[1], 0, p[2], 0, 0, 0) : p \in Pairs(TAxis(Tpl(td)))}
 TsD(td)  == {D(td, "ts", s, 0, 0, 0, 0, 0) : s \in Ticks(TAxis(Tpl(td)))}
+\* no geometry at all: a = index of the fill value, b = 1 scalar value / 0 empty value list
+NoneD(td) == {D(td, "none", q, sc, 0, 0, 0, 0) : q \in 1..3, sc \in 0..1}
 CatD(td) == {D(td, "cat", i, m, 0, 0, 0, 0) : i \in 1..Len(Cat), m \in 1..2}
 \* a time coordinate of the box equals one of its frequency coordinates as a number and falls into a different bin there
 Coincide(y) == LET tp == Tpl([y EXCEPT !.su = 1]) IN
@@ -80,6 +82,7 @@ Descriptors ==
          \cup  {x \in IvD(td) : Hash(x) % BoxStride = 0}
          \cup  {x \in TsD(td) : Hash(x) % 2 = 0}
          \cup  {x \in ct : Hash(x) % CatStride = 0}
+         \cup  NoneD(td)
          \cup  {[x EXCEPT !.g2 = j] : x \in {y \in bx : Hash(y) % PairStride = 1}, j \in 1..2}
          \cup  {[x EXCEPT !.g2 = j] : x \in {y \in ct : Hash(y) % (2 * CatStride) = 1}, j \in 1..2}
          \cup  {[x EXCEPT !.g2 = j, !.mm = m] : x \in {y \in bx : y.a < y.d /\ y.b < y.e /\ Hash(y) % (4 * PairStride) = 2},
@@ -133,12 +136,13 @@ Fills == <<0, -1, 7>>
 Concrete(x) ==
     LET tp == Tpl(x)
         n  == Hash(x)
-        gs == IF x.g2 = 0 THEN <<First(x)>>
+        gs == IF x.gk = "none" THEN <<>> ELSE IF x.g2 = 0 THEN <<First(x)>>
               ELSE IF x.g3 = 0 THEN <<First(x), Second(x, tp, x.g2)>> ELSE <<First(x), Second(x, tp, x.g2), Third(x, tp)>>
-        fl == Fills[(n % 3) + 1]
+        fl == IF x.gk = "none" THEN Fills[x.a] ELSE Fills[(n % 3) + 1]
         dt == IF fl < 0 THEN <<"float32", "int16">>[(n % 2) + 1] ELSE <<"float32", "uint8", "int32", "float64">>[((n \div 3) % 4) + 1]
-        sc == x.mm = 0 /\ x.g3 = 0 /\ (n \div 2) % 3 = 0
-        vs == CASE x.mm = 1 -> IF Len(gs) = 1 THEN <<>> ELSE <<4>>
+        sc == IF x.gk = "none" THEN x.b = 1 ELSE x.mm = 0 /\ x.g3 = 0 /\ (n \div 2) % 3 = 0
+        vs == CASE x.gk = "none" -> IF sc THEN <<5>> ELSE <<>>
+                [] x.mm = 1 -> IF Len(gs) = 1 THEN <<>> ELSE <<4>>
                 [] x.mm = 2 -> IF Len(gs) = 1 THEN <<1, 2>> ELSE <<1, 2, 3>>
                 [] OTHER    -> IF sc /\ x.g3 = 0 THEN <<5>> ELSE IF Len(gs) = 1 THEN <<1 + (n % 3)>>
                                ELSE IF Len(gs) = 2 THEN <<2 + (n % 2), 4>> ELSE <<2 + (n % 2), 4, 6>>
